@@ -1109,15 +1109,57 @@ func DefaultsTaken() []string { return ex.res.Defaults }
 // NextObjID hands out small deterministic ids for harness objects.
 func NextObjID() int { ex.objseq++; return ex.objseq }
 
-// MapKeys returns the keys of m in a deterministic (sorted) order; rewritten
-// `for … range <map>` loops iterate over it.
-func MapKeys[M ~map[K]V, K comparable, V any](m M) []K {
+// MapKeysSorted returns the keys of m in sorted order (harness loops).
+func MapKeysSorted[M ~map[K]V, K comparable, V any](m M) []K {
 	keys := make([]K, 0, len(m))
 	for k := range m {
 		keys = append(keys, k)
 	}
 	sort.Slice(keys, func(i, j int) bool { return lessAny(keys[i], keys[j]) })
 	return keys
+}
+
+// MapKeys stands in for the iteration order of `for … range <map>` in goat's
+// own code. Go leaves that order unspecified; the model offers every rotation
+// of the sorted order (so every key can come first), the non-default ones at
+// the cost of one deviation, while the scenario is exploring.
+func MapKeys[M ~map[K]V, K comparable, V any](m M) []K {
+	keys := MapKeysSorted(m)
+	e := ex
+	if e == nil || !e.exploring || e.killing || len(keys) < 2 {
+		return keys
+	}
+	n := len(keys)
+	if n > 8 {
+		n = 8
+	}
+	r := chooseCosted(n)
+	if r == 0 {
+		return keys
+	}
+	return append(append([]K{}, keys[r:]...), keys[:r]...)
+}
+
+// chooseCosted is Choose with every non-default alternative costing one deviation.
+func chooseCosted(n int) int {
+	e := ex
+	sig := uint32(2166136261)
+	sig = (sig ^ 0xC057ED) * 16777619
+	sig = (sig ^ uint32(n)) * 16777619
+	choice := 0
+	if e.pos < len(e.cfg.Prefix) {
+		choice = e.cfg.Prefix[e.pos]
+		if choice < 0 || choice >= n {
+			e.res.Nondet = fmt.Sprintf("replay: map-order choice %d out of range (%d) at point %d", choice, n, e.pos)
+			choice = 0
+		}
+	}
+	e.pos++
+	e.res.Points = append(e.res.Points, Point{N: uint8(n), Chosen: uint8(choice), Costs: (uint32(1)<<uint(n) - 1) &^ 1, Sig: sig})
+	if e.cfg.Verbose {
+		e.res.Trace = append(e.res.Trace, fmt.Sprintf("[%d/%d] map iteration starts at key #%d", choice, n, choice))
+	}
+	return choice
 }
 
 func lessAny(a, b any) bool {
